@@ -216,6 +216,17 @@ func (fx *fnExec) evalSpec(e Expr, env *SpecEnv) SV {
 				return Sc{app(t.So, "bvnot", t), v.(Sc).Typ}
 			}
 			panic(vcErr("spec ^x needs a bit-vector operand"))
+		case "*":
+			sc, ok := v.(Sc)
+			if !ok || sc.Typ == nil {
+				panic(vcErr("spec dereference of %T", v))
+			}
+			pt, ok := sc.Typ.Underlying().(*types.Pointer)
+			if !ok {
+				panic(vcErr("spec dereference of a non-pointer"))
+			}
+			ad := Ad{Heap: "F." + typeKey(pt.Elem()), Idx: []Term{sc.T}, Typ: pt.Elem(), rootTyps: []types.Type{pt.Elem()}}
+			return fx.loadIn(env.cur, ad, false)
 		}
 	case EBin:
 		return fx.evalBin(x, env)
@@ -249,8 +260,14 @@ func (fx *fnExec) evalSpec(e Expr, env *SpecEnv) SV {
 		var binders []string
 		var guards []Term
 		for _, qv := range x.Vars {
-			so := fx.ghostSort(qv.Type)
 			var typ types.Type
+			if gt := fx.goType(qv.Type); gt != nil {
+				typ = gt
+			}
+			so := SInt
+			if typ == nil {
+				so = fx.ghostSort(qv.Type)
+			}
 			switch qv.Type {
 			case "byte":
 				so = fx.isort()
@@ -286,6 +303,17 @@ func (fx *fnExec) evalSpec(e Expr, env *SpecEnv) SV {
 		} else {
 			body = tAnd(append(guards, body)...)
 		}
+		if len(x.Patterns) > 0 {
+			var ps []string
+			for _, g := range x.Patterns {
+				var ts []string
+				for _, pe := range g {
+					ts = append(ts, flatten(fx.evalSpec(pe, ne))[0].S)
+				}
+				ps = append(ps, ":pattern ("+strings.Join(ts, " ")+")")
+			}
+			return Sc{Term{fmt.Sprintf("(%s (%s) (! %s %s))", q, strings.Join(binders, " "), body.S, strings.Join(ps, " ")), SBool}, nil}
+		}
 		return Sc{Term{fmt.Sprintf("(%s (%s) %s)", q, strings.Join(binders, " "), body.S), SBool}, nil}
 	case ECall:
 		return fx.evalCall(x, env)
@@ -311,6 +339,15 @@ func (fx *fnExec) evalIdent(name string, env *SpecEnv) SV {
 	}
 	if !env.callee {
 		if c, ok := fx.lookupCell(name); ok {
+			if a, isAlloc := c.(*ssa.Alloc); isAlloc && !isCellAlloc(a) && !isArrayBacking(a) {
+				// a named local that escapes lives in the heap: read it through its address
+				ref, ok := fx.vals[a].(Sc)
+				if !ok {
+					panic(vcErr("variable %q is not allocated yet at this point", name))
+				}
+				et := a.Type().(*types.Pointer).Elem()
+				return fx.loadIn(env.cur, Ad{Heap: "F." + typeKey(et), Idx: []Term{ref.T}, Typ: et, rootTyps: []types.Type{et}}, false)
+			}
 			v, ok := env.cur.cells[c]
 			if !ok {
 				save := fx.st
@@ -407,7 +444,7 @@ func (fx *fnExec) specIndex(v, i SV, env *SpecEnv) SV {
 	switch s := v.(type) {
 	case Sl:
 		ix := fx.idx(i)
-		ad := Ad{Heap: "E." + typeKey(s.Elem), Idx: []Term{s.Arr, fx.iAdd(s.Off, ix)}, Typ: s.Elem, rootTyps: []types.Type{s.Elem}}
+		ad := Ad{Heap: "E." + typeKey(s.Elem), Idx: []Term{s.Arr, fx.eIdx(s.Off, ix)}, Typ: s.Elem, rootTyps: []types.Type{s.Elem}}
 		return fx.loadIn(env.cur, ad, false)
 	case Sc:
 		if s.T.So == SStr {
@@ -916,7 +953,14 @@ func (fx *fnExec) evalCall(x ECall, env *SpecEnv) SV {
 		for i, a := range x.Args {
 			as = append(as, fx.sc(fx.evalSpec(a, env), d.Args[i]))
 		}
-		return Sc{app(d.Ret, d.Name, as...), nil}
+		var rt types.Type
+		if d.GoType != "" {
+			rt = fx.goType(d.GoType)
+			if rt == nil {
+				panic(vcErr("declared function %s: unknown Go type %s", d.Name, d.GoType))
+			}
+		}
+		return Sc{app(d.Ret, d.Name, as...), rt}
 	}
 	panic(vcErr("unknown spec function %s", x.Fun))
 }
@@ -1152,4 +1196,49 @@ func (fx *fnExec) evalClause(c Clause, env *SpecEnv) Term {
 		panic(vcErr("portable clause %q: %v", c.Src, err))
 	}
 	return wt
+}
+
+// goType resolves "*T", "*pkg.T", "T" to a Go type of the program (nil when the name is not a Go type).
+func (fx *fnExec) goType(name string) types.Type {
+	ptr := strings.HasPrefix(name, "*")
+	n := strings.TrimPrefix(name, "*")
+	pkgName := ""
+	if i := strings.Index(n, "."); i >= 0 {
+		pkgName, n = n[:i], n[i+1:]
+	}
+	if !ptr && pkgName == "" {
+		switch n {
+		case "int", "bool", "byte", "ref", "str", "uint64":
+			return nil
+		}
+	}
+	var found types.Type
+	look := func(p *types.Package) {
+		if p == nil || found != nil {
+			return
+		}
+		if pkgName != "" && p.Name() != pkgName {
+			return
+		}
+		if o := p.Scope().Lookup(n); o != nil {
+			if tn, ok := o.(*types.TypeName); ok {
+				found = tn.Type()
+			}
+		}
+	}
+	if fx.fn != nil && fx.fn.Pkg != nil {
+		look(fx.fn.Pkg.Pkg)
+	}
+	if found == nil {
+		for _, p := range fx.v.prog.AllPackages() {
+			look(p.Pkg)
+		}
+	}
+	if found == nil {
+		return nil
+	}
+	if ptr {
+		return types.NewPointer(found)
+	}
+	return found
 }
